@@ -109,7 +109,7 @@ func init() {
 		NotCovered: "numeric formatting (float %g round trip, big floats, literal bases and suffixes), String#to_int, regex inspect, and nesting of collections: these depend on numeric values, not on table shape.",
 	}
 	props["C01"] = &PropSpec{
-		Rules:      []string{"native/argidx", "native/argrep", "hash/grow-by-occupied", "optable/siteinfo", "cover/offsets", "cover/rebase", "stack/stale-after-reentry", "effect/mayfatal-unlock", "path/recoverguard", "path/snapshot-first", "effect/selfrec", "layout/params-first"},
+		Rules:      []string{"native/argidx", "native/argrep", "hash/grow-by-occupied", "optable/siteinfo", "cover/offsets", "cover/rebase", "stack/stale-after-reentry", "effect/mayfatal-unlock", "path/recoverguard", "path/snapshot-first", "effect/selfrec", "layout/params-first", "stack/result-protocol", "path/throw-continues"},
 		Decides:    "nine host-crash mechanisms, each enumerated over all of its sites: a native method indexes its argument slice only within the parameter count it is registered with; a call instruction is always paired with the call-site record type its handler reinterprets through an unsafe pointer, also after instructions were moved; growing the value stack rebases every saved address, and no VM function uses a stack address across a call that can grow the stack; no program-driven unlock can reach the runtime's unrecoverable fatal error; sends, closes, selects and wait-group decrements on program-held objects are recovered or guarded; a method's defer prologue cannot be lost to a flag snapshot taken too late; no function is an unconditional self call.",
 		NotCovered: "index-out-of-range, nil dereference and explicit panic sites whose guard depends on run-time values; representation mismatches between a native method's declared parameter types and the accessors it applies (planned ARGREP engine, not built); Go map concurrent-write fatals from racy Elk programs; soundness of the Elk type system itself. Open finding: select with a send case on a closed channel (listed under C25).",
 	}
@@ -144,13 +144,13 @@ func init() {
 		NotCovered: "that the frames listed are the active call chain and that the line recorded for each emitted instruction is the right source line: relations between a run and the source program.",
 	}
 	props["C14"] = &PropSpec{
-		Rules:      []string{"layout/finally-entry", "path/shortcircuit", "path/snapshot-first", "cover/offsets", "layout/prepend-bytes", "pool/patched-slot-unique", "layout/params-first"},
-		Decides:    "seven shape conditions of structured control flow: the value-pool slot a break/continue through finally reads its target from is a slot of its own (patching one exit cannot retarget another); the hidden defer-stack local of a method, function or macro is allocated after the parameters, so that installing it cannot overwrite an argument; the distance at which the VM enters a finally block for break/continue equals the bytes the compiler emits before that entry point; the searches for an error handler and for a pending finally use the same range test on catch entries; the conditional jump of && || ?? is emitted between the operands and patched after the right one on every path; a method's defer flag survives the checking of nested closures; catch ranges move with the code when a prologue is prepended.",
+		Rules:      []string{"layout/finally-entry", "path/shortcircuit", "path/snapshot-first", "cover/offsets", "layout/prepend-bytes", "pool/patched-slot-unique", "layout/params-first", "path/throw-continues"},
+		Decides:    "eight shape conditions of structured control flow: no instruction leaves the interpreter loop after it has jumped to a catch handler (the handler would never run); the value-pool slot a break/continue through finally reads its target from is a slot of its own (patching one exit cannot retarget another); the hidden defer-stack local of a method, function or macro is allocated after the parameters, so that installing it cannot overwrite an argument; the distance at which the VM enters a finally block for break/continue equals the bytes the compiler emits before that entry point; the searches for an error handler and for a pending finally use the same range test on catch entries; the conditional jump of && || ?? is emitted between the operands and patched after the right one on every path; a method's defer flag survives the checking of nested closures; catch ranges move with the code when a prologue is prepended.",
 		NotCovered: "that each finally/defer runs exactly once and innermost first, and the values control-flow expressions produce: execution-order properties of the generated code over all programs.",
 	}
 	props["C15"] = &PropSpec{
-		Rules:      []string{"path/exactlyone", "cover/offsets", "layout/prepend-bytes", "stack/stale-after-reentry", "layout/params-first", "stack/result-protocol"},
-		Decides:    "that a `yield` (or any other node) whose value is used leaves a value on the stack, so that resuming a generator inside a loop body does not pop one of the frame's locals per iteration; that the saved stack of a generator or async body is copied into the running thread through an address that is still valid (not one taken before a call that may have reallocated the value stack); that the hidden thread-pool argument of an async method and its parameters occupy the frame slots the VM passes them in; that the value (or error) of an async body reaches its awaiters exactly once:every path through the worker functions settles the promise exactly once, every settlement decrements the promise's wait group once and enqueues the continuations once, every constructor of an unsettled promise increments the wait group once; and that the prologue prepended to generator and async bodies shifts every stored offset (catch entries, recorded call sites) by its own length, without which the property's own generator example crashes.",
+		Rules:      []string{"path/exactlyone", "cover/offsets", "layout/prepend-bytes", "stack/stale-after-reentry", "layout/params-first", "stack/result-protocol", "path/throw-continues"},
+		Decides:    "that an instruction which rethrows the error of a rejected promise goes on at the catch handler instead of leaving the interpreter loop (where the worker would resolve the promise with the error as if it were the body's result); that a `yield` (or any other node) whose value is used leaves a value on the stack, so that resuming a generator inside a loop body does not pop one of the frame's locals per iteration; that the saved stack of a generator or async body is copied into the running thread through an address that is still valid (not one taken before a call that may have reallocated the value stack); that the hidden thread-pool argument of an async method and its parameters occupy the frame slots the VM passes them in; that the value (or error) of an async body reaches its awaiters exactly once:every path through the worker functions settles the promise exactly once, every settlement decrements the promise's wait group once and enqueues the continuations once, every constructor of an unsettled promise increments the wait group once; and that the prologue prepended to generator and async bodies shifts every stored offset (catch entries, recorded call sites) by its own length, without which the property's own generator example crashes.",
 		NotCovered: "that wrapping a body as a generator or async function preserves the values it yields and returns (resumption at the right instruction with the right stack): a relation between two executions.",
 	}
 	props["C16"] = &PropSpec{
